@@ -40,6 +40,8 @@ type panVsysT struct {
 	addrs  map[string]string   // overrides / extra addresses
 	sgroup map[string][]string
 	extra  string // extra XML inside vsys
+	svcIn  map[string]string // service name -> extra XML inside its <tcp>/<udp> element
+	svcOut map[string]string // service name -> extra XML beside <protocol>
 }
 
 func defaultGroups() map[string][]string {
@@ -179,7 +181,7 @@ func panVsysXML(v panVsysT) string {
 		b.WriteString("<service>")
 		for _, n := range sortedKeys(usedSvc) {
 			proto, port, _ := strings.Cut(n, " ")
-			fmt.Fprintf(&b, `<entry name="%s"><protocol><%s><port>%s</port></%s></protocol></entry>`, n, proto, port, proto)
+			fmt.Fprintf(&b, `<entry name="%s"><protocol><%s><port>%s</port>%s</%s></protocol>%s</entry>`, n, proto, port, v.svcIn[n], proto, v.svcOut[n])
 		}
 		b.WriteString("</service>")
 	}
@@ -360,13 +362,20 @@ func panSvcSpace() *panSpace {
 		{[]string{"any"}, nil},
 		{[]string{"application-default"}, nil},
 	}
+	// definition variants of the service 'tcp 80' itself
+	defs := []struct{ in, out string }{{"", ""}, {"<source-port>1024-65535</source-port>", ""}, {"<override><yes><timeout>30</timeout></yes></override>", ""},
+		{"", "<description>web</description>"}, {"<source-port>1024-65535</source-port>", "<description>web</description>"}}
 	n := int64(len(vars))
-	return &panSpace{name: "svc", n: n * n, gen: func(i int64) (string, core.Files) {
-		mk := func(v sv) string {
+	nd := int64(len(defs))
+	return &panSpace{name: "svc", n: n * n * nd * nd, gen: func(i int64) (string, core.Files) {
+		da, db := defs[i%nd], defs[i/nd%nd]
+		i /= nd * nd
+		mk := func(v sv, d struct{ in, out string }) string {
 			r := panRuleT{"allow", "z1", "z2", []string{"a1"}, []string{"a3"}, v.srv, ""}
-			return panConfig(panVsysT{name: "vsys1", rules: []panRuleT{r}, sgroup: v.sgroup})
+			return panConfig(panVsysT{name: "vsys1", rules: []panRuleT{r}, sgroup: v.sgroup,
+				svcIn: map[string]string{"tcp 80": d.in}, svcOut: map[string]string{"tcp 80": d.out}})
 		}
-		return mk(vars[i/n]), core.Files{Main: mk(vars[i%n])}
+		return mk(vars[i/n], da), core.Files{Main: mk(vars[i%n], db)}
 	}}
 }
 
